@@ -194,6 +194,18 @@ type c17PipeRunner struct {
 	wclosed     bool
 	cancelled   bool
 	dead        bool
+	baseline    int // runtime.NumGoroutine() before the pipe was created
+}
+
+// c17Settle waits (up to 10 s) for the goroutine count to come back to the baseline.
+func c17Settle(baseline int) bool {
+	for i := 0; i < 2000; i++ {
+		if runtime.NumGoroutine() <= baseline {
+			return true
+		}
+		time.Sleep(5 * time.Millisecond)
+	}
+	return false
 }
 
 func (s c17PipeSuite) NewRunner(stats *Stats) Runner { return &c17PipeRunner{conc: s.conc, stats: stats} }
@@ -256,6 +268,7 @@ func (r *c17PipeRunner) Step(t []string, raw string) string {
 		if r.cancel != nil {
 			r.cancel()
 		}
+		r.baseline = runtime.NumGoroutine()
 		r.ctx, r.cancel = context.WithCancel(context.Background())
 		r.w, r.r = channels.BufferedPipe[int](r.ctx)
 		r.outstanding, r.wclosed, r.cancelled, r.dead = 0, false, false, false
@@ -324,6 +337,9 @@ func (r *c17PipeRunner) Step(t []string, raw string) string {
 		if !closed {
 			return "hang"
 		}
+		if !c17Settle(r.baseline) {
+			return "leak"
+		}
 		if r.conc {
 			return strings.TrimSpace("closed got " + csvInts(got))
 		}
@@ -334,6 +350,9 @@ func (r *c17PipeRunner) Step(t []string, raw string) string {
 		}
 		got, closed := r.drain()
 		r.outstanding = 0
+		if closed && !c17Settle(r.baseline) {
+			return "leak"
+		}
 		if closed {
 			r.stats.Inc("branch.pipe.flush_exit")
 			return strings.Join(strings.Fields("got "+csvInts(got)+" closed"), " ")
@@ -770,14 +789,7 @@ wait:
 	}
 	cancel()
 	// goroutines must settle back (the pipe goroutine exits asynchronously after the cancel)
-	settled := false
-	for i := 0; i < 2000; i++ {
-		if runtime.NumGoroutine() <= baseline {
-			settled = true
-			break
-		}
-		time.Sleep(5 * time.Millisecond)
-	}
+	settled := c17Settle(baseline)
 	ret := "ok"
 	switch {
 	case hang:
